@@ -284,6 +284,26 @@ def scripted():
         A("subscribe", t="T1"), A("score", p="p1", v=-1), A("hb"), peer("p4", "v12", "out", ("T1",)), A("hb"),
         peer("p5", "v11", "in", ("T1",)), peer("p6", "v12", "in", ("T1",)), A("score", p="p5", v=3), A("score", p="p6", v=3),
         A("hb"), A("hb"), A("hb"), A("hb"), A("hb"), A("cancel", t="T1")]})
+    # U1: every SEND_RPC/DROP_RPC call site of gossipsub with its push accepted AND refused, decided by the queue hook:
+    #     a v1.2 mesh peer's writes are gated and its queue of one is filled with two small publications; then
+    #     - a big message from another peer: Preprocess sends IDONTWANT (URGENT push) to the gated peer: refused; the
+    #       forward (non-urgent) is refused too;  - a big local publication: urgent refused (gated) and accepted (other peer);
+    #     - a batch [normal, local-only, normal] while the queue is full (batch path refused) and again after the gate opens
+    S.append({"cfg": {"router": "gossipsub", "queue": 1, "hosts": 6}, "acts": [
+        peer("p1", "v12", "in", ("T1",)), peer("p2", "v12", "out", ("T1",)), peer("p3", "v11", "in", ("T1",)), A("hb"),
+        A("subscribe", t="T1"), A("hb"), A("hb"), A("gate", p="p1", on=True), A("publish", t="T1", m="m1"), A("publish", t="T1", m="m2"),
+        A("msg", p="p2", t="T1", m="m3", size=100), A("publish", t="T1", m="m4", size=100),
+        A("pubbatch", t="T1", ms=["b1", "b2", "b3"], ls=[False, True, False]), A("pubbatch", t="T1", ms=["b4", "b5"], ls=[True, False], size=100),
+        A("gate", p="p1", on=False), A("hb"), A("hb"), A("msg", p="p3", t="T1", m="m5", size=100),
+        A("pubbatch", t="T1", ms=["b6", "b7", "b8"], ls=[False, True, False]), A("pubbatch", t="T1", ms=["b9"], ls=[True]),
+        A("cancel", t="T1"), A("pubbatch", t="T1", ms=["b10", "b11"], ls=[True, False])]})
+    # U2: the split path of sendRPC (an IWANT reply larger than the maximum message size goes out as fragments),
+    #     accepted, then refused by the full queue of the gated requester
+    S.append({"cfg": {"router": "gossipsub", "queue": 1, "maxMsg": 400, "hosts": 5}, "acts": [
+        peer("p1", "v11", "in", ("T1",)), peer("p2", "v11", "out", ("T1",)), A("hb"), A("subscribe", t="T1"), A("hb"),
+        A("msg", p="p2", t="T1", m="m1", size=100), A("msg", p="p2", t="T1", m="m2", size=100), A("msg", p="p2", t="T1", m="m3", size=100),
+        A("hb"), A("iwant", p="p1", ids=["m1", "m2", "m3"]), A("hb"), A("gate", p="p1", on=True),
+        A("iwant", p="p1", ids=["m1", "m2", "m3"]), A("gate", p="p1", on=False), A("hb"), A("cancel", t="T1")]})
     for s in S:
         s["src"] = "scripted"
     return S
@@ -376,7 +396,9 @@ def walk(rng, router, steps):
             else:
                 a, bsubbed = {"a": "bcancel", "t": "TB"}, False
         elif r < 98:
-            a = {"a": "pubbatch", "t": "TB", "ms": [newm() for _ in range(rng.randint(1, 3))]}
+            ms = [newm() for _ in range(rng.randint(1, 3))]
+            a = {"a": "pubbatch", "t": rng.choice(["TB", t]), "ms": ms, "ls": [rng.random() < 0.35 for _ in ms],
+                 "size": rng.choice([16, 100])}
         elif r < 99 and remote:
             a = {"a": "iwant", "p": p, "ids": [rng.choice(remote)]}
         else:
@@ -511,7 +533,7 @@ def validate(ctx, groups):
                                     (ci, res.hw, res.errors[:2], res.dir))
         return res.printed("VIOL"), res.distinct
 
-    with cf.ThreadPoolExecutor(max_workers=max(1, min(vlib.NCPU // 2, len(chunks), 6))) as ex:
+    with cf.ThreadPoolExecutor(max_workers=max(1, min(vlib.NCPU // 2, len(chunks), 4))) as ex:
         for vs, st in ex.map(do, range(len(chunks))):
             viols += vs
             states += st
@@ -584,12 +606,43 @@ def branches(br, cfg, prev, d, act):
         hit("cancel:not-last-no-LEAVE")
 
 
+PUSH_SITES = ["announce", "announce-retry", "gossipsub:urgent", "gossipsub:non-urgent", "gossipsub:split", "gossipsub:batch",
+              "floodsub:publish", "randomsub:publish"]
+
+
+def push_sites(ps, cfg, d, act):
+    """Which SEND_RPC/DROP_RPC call site each push seen by the queue hook came from, and its outcome (ok / full):
+    pubsub.go announce and doAnnounceRetry; gossipsub.go doSendRPC urgent and non-urgent, the split path of sendRPC,
+    the batch path; floodsub.go and randomsub.go Publish. Counted only; P_C19_Rpc judges each of these lines."""
+    router, a = cfg["router"], act["a"]
+    l = d["push"]["list"]
+    nmsg = sum(1 for x in l if x["rpc"]["msgs"])
+    for x in l:
+        r = x["rpc"]
+        if r["subs"]:
+            site = "announce" if a in ("subscribe", "cancel", "relay", "unrelay", "bsub", "bcancel") else "announce-retry"
+        elif router != "gossipsub":
+            site = router + ":publish" if r["msgs"] else None
+        elif x["urgent"]:
+            site = "gossipsub:urgent"
+        elif a == "pubbatch" and r["msgs"]:
+            site = "gossipsub:batch"
+        elif a == "iwant" and r["msgs"] and nmsg >= 2 and cfg.get("maxMsg"):
+            site = "gossipsub:split"      # one IWANT gets one reply RPC; several pushes with messages = its fragments
+        else:
+            site = "gossipsub:non-urgent"
+        if site:
+            k = site + (":ok" if x["ok"] else ":full")
+            ps[k] = ps.get(k, 0) + 1
+
+
 def coverage(groups):
     """Coverage obligations measured on the validated real lines."""
     cov = {"types": {}, "routers": {}, "mesh_peer_disconnect": 0, "drop_refused_push": 0, "drop_without_push": 0,
            "leave_with_mesh": 0, "rejoin_cycles": {}, "batch_publish": 0, "files_lines": 0, "hb_graft": 0, "hb_prune": 0,
            "remote_graft": 0, "remote_prune": 0, "announce_retry_send": 0, "unresolved_publication": 0, "lines_with_push": 0,
-           "rejected_local_publication": 0, "local_only_publication": 0, "branches": {}}
+           "rejected_local_publication": 0, "local_only_publication": 0, "branches": {},
+           "push_sites": {}, "batch_local_only_to_subscriber": 0, "batch_mixed": 0}
     for name, raw, _ in groups:
         for sc in raw:
             router = sc[0]["act"]["cfg"]["router"]
@@ -615,7 +668,12 @@ def coverage(groups):
                     if e["type"] == "PUBLISH_MESSAGE" and e["m"].startswith("#"):
                         cov["unresolved_publication"] += 1
                 ndrop = sum(1 for e in tev if e["type"] == "DROP_RPC")
+                if act["a"] == "pubbatch" and isinstance(act.get("ls"), list):
+                    loc = {m for m, f in zip(act["ms"], act["ls"]) if f}
+                    cov["batch_mixed"] += bool(loc) and len(loc) < len(act["ms"])
+                    cov["batch_local_only_to_subscriber"] += any(x["m"] in loc and x["sub"] != "publish-error" for x in d["deliv"])
                 if "push" in d:
+                    push_sites(cov["push_sites"], sc[0]["act"]["cfg"], d, act)
                     cov["lines_with_push"] += 1
                     if d["push"]["full"] > 0:
                         cov["drop_refused_push"] += 1
@@ -692,7 +750,7 @@ def run(ctx):
     rng = random.Random(ctx.seed)
     states, transitions, samples = 0, 0, []
     # 1. model level: the replay of the router model's own events rebuilds its state at every quiet state
-    mc = vlib.run_tlc(ctx, FAMILY, "MCTraceReplay", "MCTraceReplay.cfg", timeout=900, name="mc")
+    mc = vlib.run_tlc(ctx, FAMILY, "MCTraceReplay", "MCTraceReplay.cfg", timeout=900, name="mc", workers=4)
     vlib.require_mc_ok(ctx, mc, "MCTraceReplay (2 peers, 2 topics, 2 messages, queue capacity 1)")
     states += mc.distinct; transitions += mc.generated
     mcinfo = {"MCTraceReplay": [mc.distinct, mc.generated]}
@@ -700,11 +758,11 @@ def run(ctx):
     for cfgname, prop in (("MCTraceReplayD8.cfg", "P_C19_Alternate"), ("MCTraceReplayNoClose.cfg", "P_C19_Peers"),
                           ("MCTraceReplayNoCloseMesh.cfg", "P_C19_Mesh"), ("MCTraceReplayNoPrune.cfg", "P_C19_Mesh"),
                           ("MCTraceReplayBatch2.cfg", "P_C19_Deliver")):
-        bug = vlib.run_tlc(ctx, FAMILY, "MCTraceReplay", cfgname, timeout=600, name="mc-" + cfgname[13:-4])
+        bug = vlib.run_tlc(ctx, FAMILY, "MCTraceReplay", cfgname, timeout=600, name="mc-" + cfgname[13:-4], workers=4)
         vlib.require_mc_fails(ctx, bug, cfgname, prop)
         mcinfo[cfgname] = "violates %s as required" % prop
     if ctx.thorough:
-        mc3 = vlib.run_tlc(ctx, FAMILY, "MCTraceReplay", "MCTraceReplay3.cfg", timeout=1500, name="mc3", workers=min(vlib.NCPU, 8))
+        mc3 = vlib.run_tlc(ctx, FAMILY, "MCTraceReplay", "MCTraceReplay3.cfg", timeout=1500, name="mc3", workers=min(vlib.NCPU, 4))
         vlib.require_mc_ok(ctx, mc3, "MCTraceReplay3 (3 peers, 1 topic)", allow_timeout=True)
         states += mc3.distinct; transitions += mc3.generated
         mcinfo["MCTraceReplay3"] = [mc3.distinct, mc3.generated]
@@ -713,7 +771,7 @@ def run(ctx):
     L = 6 if ctx.thorough else 5
     g = vlib.run_tlc(ctx, FAMILY, "GenTraceReplay",
                      vlib.cfg_text(constants={"Peers": '{"p1", "p2"}', "Topics": '{"T1"}', "L": L, "MaxMsgs": 2}, invariants=["Emit"]),
-                     timeout=900, name="gen", heap="6g")
+                     timeout=900, name="gen", heap="6g", workers=4)
     vlib.require_mc_ok(ctx, g, "GenTraceReplay L=%d" % L)
     gen = g.printed("SCN")
     if not gen:
@@ -762,6 +820,8 @@ def run(ctx):
         if not cov[k]:
             missing.append(k)
     missing += [b for b in BRANCHES if not cov["branches"].get(b)]
+    missing += ["push " + k + o for k in PUSH_SITES for o in (":ok", ":full") if not cov["push_sites"].get(k + o)]
+    missing += [k for k in ("batch_mixed", "batch_local_only_to_subscriber") if not cov[k]]
     if missing and not ctx.violations:
         raise vlib.Inconclusive("coverage obligation not met: never observed on the real node: %s" % missing)
 
